@@ -16,9 +16,9 @@ OUTSIDE = [
     'real protobuf type checking in symbolic runs (duck-typed fakes '
     'generated from paranoid.proto; replays use the real classes)',
     'README severities as prose; histories longer than 3 calls',
-    'CheckOpensslDenylist / CheckKeypairDenylist and the EC/ECDSA check '
-    'bodies in symbolic form (their entry bookkeeping is covered through '
-    'SetTestResult and CheckIssuerKey)',
+    'CheckOpensslDenylist and the EC/ECDSA check bodies in symbolic form '
+    '(their entry bookkeeping is covered through SetTestResult and '
+    'CheckIssuerKey)',
 ]
 ASSUMPTIONS = []
 
